@@ -32,7 +32,9 @@ func init() {
 			"interceptor registry, always closed) whose MediaEngine was configured with RegisterCodec / RegisterHeaderExtension: " +
 			"RegisterDefaultCodecs' table, a subset of it, nothing, or 1-7 random codecs per kind (opus/PCMU/PCMA/G722/" +
 			"telephone-event/red/VP8/VP9/H264/H265/AV1/rtx/flexfec/ulpfec/unknown, payload types colliding within and across kinds, " +
-			"RTX with present / absent / duplicate primaries, RTX of RTX, clock/channels incl. 0) and 0-19 header-extension " +
+			"RTX with present / absent / duplicate primaries, RTX of RTX, RTX whose apt is no payload type but congruent to a present " +
+			"one modulo 256 (256+pt, 512+pt, 2^32+pt, 2^64+pt), negative, signed, zero-padded or not a number - registered and " +
+			"preferred -, clock/channels incl. 0) and 0-19 header-extension " +
 			"registrations over 18 URIs (audio/video/both, send/recv restrictions, more than 14 URIs). Steps: AddTransceiverFromKind " +
 			"(sendrecv/sendonly/recvonly), SetCodecPreferences (subsets, reorderings, payload type kept / 0 / replaced, duplicates, " +
 			"unsupported codecs), 2-3 consecutive CreateOffer calls, SetRemoteDescription with synthetic offers rendered by pion/sdp " +
